@@ -59,3 +59,15 @@ pub(crate) fn run() {
         println!("{out}");
     }
 }
+
+/// Delays a background analysis (only when PAROL_LS_VERIF_BG_DELAY_MS is set and the analysed
+/// text contains the marker `verif-slow`), so that a harness can make an analysis of an old
+/// document version finish after a newer version has been processed.
+pub(crate) fn background_delay(input: &str) {
+    if let Ok(ms) = std::env::var("PAROL_LS_VERIF_BG_DELAY_MS")
+        && input.contains("verif-slow")
+        && let Ok(ms) = ms.parse::<u64>()
+    {
+        std::thread::sleep(std::time::Duration::from_millis(ms));
+    }
+}
